@@ -51,10 +51,19 @@ class C10(Check):
         "pre-emption at sync operations and at line granularity inside black_it/schedulers/*; finer interleavings assumed unobservable under the GIL",
         "the calibration loop is played by the harness (get_next_sampler/update with scripted losses)",
     ]
-    quick = {"runs": 2500, "wall": 50, "item_timeout": 30}
-    thorough = {"runs": 150000, "wall": 900, "item_timeout": 60}
+    quick = {"runs": 2500, "wall": 45, "item_timeout": 150}
+    thorough = {"runs": 150000, "wall": 900, "item_timeout": 600}
 
     def gen(self, rng, tier, i):
+        scn = self.gen_random(rng, tier, i)
+        if rng.random() < (0.02 if tier == "quick" else 0.01):
+            # systematic part: a small scenario under EVERY schedule with at most two pre-emptions
+            cfg = scn["config"]
+            cfg["sessions"] = [s[:2] for s in cfg["sessions"][:2]]
+            scn["pb"] = {"trace": rng.random() < 0.5, "max_pairs": 250 if tier == "quick" else 6000, "pair_seed": rng.randrange(2 ** 31)}
+        return scn
+
+    def gen_random(self, rng, tier, i):
         big = tier == "thorough" and rng.random() < 0.3
         n_sess = rng.randint(1, 4 if big else 3)
         style = rng.choice(["improving", "flat", "worse", "mixed", "mixed"])
@@ -105,9 +114,58 @@ class C10(Check):
             if live:
                 res.add("thread-alive", "after-end-session", f"{tag}after session {si} ended threads {live} are still alive")
 
+    def run_pb(self, scn, res):
+        """preemption-bounded enumeration: all schedules with 0, 1 and (all or sampled) 2 pre-emptions"""
+        import itertools
+        import random as _r
+        cfg = scn["config"]
+        pb = scn["pb"]
+        base_sched = {"mode": "pb", "preempt_at": [], "trace": pb["trace"], "p_line": 0.0}
+        ref = RLRun(cfg, base_sched).run()
+        self.judge(ref, res, tag="[no pre-emption] ")
+        n = ref.decisions
+        res.stats["pb:decision-points"] += n
+        res.stats["pb:schedules"] += 1
+        want_exec = [e[2] for e in ref.executed]
+        want_learn = [(x[1], x[2]) for x in ref.learn_calls]
+        singles = [[i] for i in range(n + 2)]
+        pairs = list(itertools.combinations(range(n + 2), 2))
+        if len(pairs) > pb["max_pairs"]:
+            pairs = _r.Random(pb["pair_seed"]).sample(pairs, pb["max_pairs"])
+            res.stats["pb:pairs-sampled"] += 1
+        else:
+            res.stats["pb:pairs-exhaustive"] += 1
+        hashes = {ref.sync_hash}
+        for pre in singles + [list(p) for p in pairs]:
+            if scn.get("pb_only") and pre != scn["pb_only"]:
+                continue
+            r = RLRun(cfg, {**base_sched, "preempt_at": pre}).run()
+            res.stats["pb:schedules"] += 1
+            res.stats["steps"] += r.steps
+            hashes.add(r.sync_hash)
+            tag = f"[pre-emptions at decision points {pre}] "
+            before = len(res.violations)
+            self.judge(r, res, tag=tag)
+            if r.outcome is None:
+                if [e[2] for e in r.executed] != want_exec:
+                    res.add("schedule-dependence", "samplers-chosen", f"{tag}samplers chosen {[e[2] for e in r.executed]} vs {want_exec} without pre-emption")
+                elif [(x[1], x[2]) for x in r.learn_calls] != want_learn:
+                    res.add("schedule-dependence", "learn-sequence", f"{tag}learn sequence differs from the run without pre-emption")
+            if len(res.violations) > before and "pb_only" not in scn:
+                scn["pb_only"] = pre          # the replay file carries the single failing schedule
+                break
+        res.stats["pb:distinct-interleavings"] += len(hashes)
+        res.extra_keys = [f"{jdigest(cfg)[:8]}:{h}" for h in sorted(hashes)]
+        res.digest = jdigest([ref.log.digest(), sorted(hashes), [(v["clause"], v["site"]) for v in res.violations]])
+        res.sample = {"mode": "preemption-bounded enumeration", "config": cfg, "decision_points": n, "schedules": int(res.stats["pb:schedules"]),
+                      "line_tracing": pb["trace"]}
+        return res
+
     def run(self, scn):
         res = Result()
         cfg = scn["config"]
+        if scn.get("pb"):
+            return self.run_pb(scn, res)
         main = RLRun(cfg, scn["sched"]).run()
         res.digest = main.log.digest()
         self.judge(main, res)
@@ -151,6 +209,11 @@ class C10(Check):
 
     def shrink(self, scn):
         cfg = scn["config"]
+        if scn.get("pb_only"):
+            for i in range(len(scn["pb_only"])):
+                c = copy.deepcopy(scn)
+                del c["pb_only"][i]
+                yield c
         # simpler schedules first
         rank = {"stay": 0, "mainfirst": 1, "othersfirst": 2}
         cur = rank.get(scn["sched"].get("mode"), 9)
